@@ -387,6 +387,17 @@ impl<'a> WriteTxn<'a> {
             .map_err(Error::from)
     }
 
+    /// Remembers the buffered writes; [`WriteTxn::rollback_to`] undoes everything buffered
+    /// since, e.g. the partial effects of a statement that failed half-way.
+    pub fn savepoint(&self) -> nervusdb_storage::engine::TxnSavepoint {
+        self.inner.savepoint()
+    }
+
+    /// Discards every write buffered since `savepoint` was taken.
+    pub fn rollback_to(&mut self, savepoint: nervusdb_storage::engine::TxnSavepoint) {
+        self.inner.rollback_to(savepoint);
+    }
+
     /// Gets or creates a label ID for the given name.
     pub fn get_or_create_label(&mut self, name: &str) -> Result<LabelId> {
         self.inner.get_or_create_label(name).map_err(Error::from)
